@@ -11,6 +11,7 @@ A native trap kills the process: the parent notices the dead child, records 'cra
 running and restarts a child for the remaining traces (a dead child is an observation, not a failure).
 
 child mode:  python wasm_runner.py --child jobs.json     (ndjson events on stdout)
+Integers travel as decimal strings (JSON numbers lose precision beyond 2^53 in node).
 """
 import json
 import os
@@ -83,12 +84,11 @@ def _trap_class(e):
     return "exc:" + type(e).__name__
 
 
-def _make_imports(job, calls):
+def _make_imports(job, calls, counters):
     from ppci import ir
 
     tymap = {"i32": ir.i32, "i64": ir.i64}
     imports = {}
-    counters = {}
     for x in job.get("ext") or []:
         def make(x=x):
             def body(*args):
@@ -96,7 +96,7 @@ def _make_imports(job, calls):
                 k = counters[x["name"]] = counters.get(x["name"], 0) + 1
                 if not x["ty"]:
                     return None
-                v = x["rets"][k - 1] if k <= len(x["rets"]) else 0
+                v = int(x["rets"][k - 1]) if k <= len(x["rets"]) else 0
                 b = BITS[x["ty"]]
                 v &= (1 << b) - 1
                 return v - (1 << b) if v >> (b - 1) else v
@@ -121,11 +121,12 @@ def child(path):
         for t, trace in job["todo"]:
             _emit({"ev": "start", "job": job["id"], "trace": t})
             calls = []
+            counters = {}       # the k-th call of an import within one export call returns rets[k]
             inst = None
             try:
                 module = Module(job["wat"]) if "wat" in job else Module(bytes.fromhex(job["hex"]))
                 _emit({"ev": "call", "job": job["id"], "trace": t, "k": 0})
-                inst = instantiate(module, imports=_make_imports(job, calls), target=job["target"])
+                inst = instantiate(module, imports=_make_imports(job, calls, counters), target=job["target"])
                 _emit({"ev": "obs", "job": job["id"], "trace": t, "k": 0, "obs": _observe("value", "", [], inst, job, calls)})
             except BaseException as e:
                 if isinstance(e, (KeyboardInterrupt, SystemExit)):
@@ -136,9 +137,10 @@ def child(path):
                 continue
             for k, c in enumerate(trace, start=1):
                 del calls[:]
+                counters.clear()
                 _emit({"ev": "call", "job": job["id"], "trace": t, "k": k})
                 try:
-                    r = inst.exports[c["fn"]](*c["args"])
+                    r = inst.exports[c["fn"]](*[int(a) for a in c["args"]])
                     rs = [] if r is None else (list(r) if isinstance(r, (tuple, list)) else [r])
                     if len(rs) != len(c["rtys"]) or not all(_value_ok(v, ty) for v, ty in zip(rs, c["rtys"])):
                         o = _observe("badvalue", repr(r), [], inst, job, calls)
